@@ -34,8 +34,8 @@ fn run(o: &Opts) {
             return;
         }
     };
-    let st0 = RefState { markers: BTreeSet::new(), bal: w.bal.clone() };
-    let mut it = Interp { uids: &uids, calls: vec![], ks: vec![] };
+    let st0 = RefState::new(w.bal.clone());
+    let mut it = Interp::new(&w, &uids);
     let exp = it.run(&root, &st0);
     match (r, exp) {
         (Ok(resp), Ok((_, out))) => {
@@ -179,15 +179,15 @@ fn entry_points() {
 pub fn scenarios(tier: &str) -> Vec<Scenario> {
     let mut v = vec![];
     v.push(Scenario::new("trees_depth2_nodes3_output_varied", &["ok", "err", "ok_with_data", "custom_event"], || {
-        run(&Opts { max_depth: 2, max_nodes: 3, max_children: 2, vary_output: true, vary_ids: false })
+        run(&Opts { max_depth: 2, max_nodes: 3, max_children: 2, vary_output: true, vary_ids: false, reply_subs: false, inst_leaves: false })
     }));
     v.push(Scenario::new("instantiate_sudo_migrate_entry_points", &["instantiate", "sudo", "migrate"], entry_points));
     if tier == "thorough" {
         v.push(Scenario::new("trees_depth2_nodes4_chain_output_varied", &["ok", "err"], || {
-            run(&Opts { max_depth: 2, max_nodes: 4, max_children: 1, vary_output: true, vary_ids: false })
+            run(&Opts { max_depth: 2, max_nodes: 4, max_children: 1, vary_output: true, vary_ids: false, reply_subs: false, inst_leaves: false })
         }));
         v.push(Scenario::new("trees_depth3_nodes4_chain_output_varied", &["ok", "err"], || {
-            run(&Opts { max_depth: 3, max_nodes: 4, max_children: 1, vary_output: true, vary_ids: false })
+            run(&Opts { max_depth: 3, max_nodes: 4, max_children: 1, vary_output: true, vary_ids: false, reply_subs: false, inst_leaves: false })
         }));
     }
     v
